@@ -38,16 +38,33 @@ func evStr() string {
 	return strings.Join(evLog, ",")
 }
 
-type vobj struct{ tag int }
-type vpool struct{}
+// Two pools: an object taken for tag t comes from "vpool" (t even) or "vpool2" (t odd) and remembers its home.
+// The Lean model logs one release event per acquired object; an object handed to the other pool is logged
+// differently, so it shows as a divergence of the event log.
+type vobj struct {
+	tag  int
+	home string
+}
+type vpool struct{ name string }
 
-func (vpool) Get() any { return &vobj{tag: -1} }
-func (vpool) Put(x any) {
+func (p vpool) Get() any { return &vobj{tag: -1, home: p.name} }
+func (p vpool) Put(x any) {
 	if o, ok := x.(*vobj); ok {
+		if o.home != p.name {
+			evAdd(fmt.Sprintf("wrongpool%d", o.tag))
+			return
+		}
 		evAdd(fmt.Sprintf("rel%d", o.tag))
 	}
 }
 func (vpool) Reset(x any) {}
+
+func vpoolOf(tag int) string {
+	if tag%2 != 0 {
+		return "vpool2"
+	}
+	return "vpool"
+}
 
 func argText(a any) string {
 	if kv, ok := a.(*dyntpl.KV); ok {
@@ -99,9 +116,14 @@ func init() {
 		}
 		return nil
 	})
+	dyntpl.RegisterModFn("vdeferfail", "", func(ctx *dyntpl.Ctx, buf *any, val any, args []any) error {
+		// a deferred function that fails (not part of the Lean model's class: used by the C13 sequences only)
+		ctx.Defer(func() error { return errUserFail })
+		return nil
+	})
 	dyntpl.RegisterModFn("vacquire", "", func(ctx *dyntpl.Ctx, buf *any, val any, args []any) error {
 		if t, ok := argInt(args); ok {
-			x, err := ctx.AcquireFrom("vpool")
+			x, err := ctx.AcquireFrom(vpoolOf(t))
 			if err != nil {
 				return err
 			}
@@ -138,7 +160,8 @@ func init() {
 		*v = &cp
 		*ok = true
 	})
-	_ = dyntpl.RegisterPool("vpool", vpool{})
+	_ = dyntpl.RegisterPool("vpool", vpool{"vpool"})
+	_ = dyntpl.RegisterPool("vpool2", vpool{"vpool2"})
 }
 
 // ---- values ----
